@@ -61,7 +61,15 @@ void harness(void)
 #ifdef VF_MIN_LEN
     VF_ASSUME(len >= VF_MIN_LEN);
 #endif
+#ifdef VF_FILL_FROM
+    /* long family: positions [VF_FILL_FROM, VF_FILL_TO) all hold one symbolic non-structural byte */
+    unsigned char fill = nondet_uchar();
+    VF_ASSUME(fill != 0 && fill != '@' && fill != '[' && fill != ']' && fill != '.' && fill != ':');
+#endif
     for (unsigned i = 0; i < VF_N; i++) {
+#ifdef VF_FILL_FROM
+        if (i >= VF_FILL_FROM && i < VF_FILL_TO) { email_u[i] = fill; continue; }
+#endif
         email_u[i] = nondet_uchar();
         if (i < len) VF_ASSUME(email[i] != 0);
     }
@@ -151,6 +159,7 @@ void harness(void)
                       "C16: is_domain iff the domain was valid; no other flag");
             VF_ASSERT(ls_count[F_SPECIAL] + ls_count[F_TLD] == 0, "no duplicate TLD work in mode 6531");
             VF_COVER(rc == 0 && !tld_check, "accepted-hostname");
+            VF_COVER(rc == 0 && at == 64, "accepted-lpart-64");
             VF_COVER(rc > 0, "tld-class");
             VF_COVER(rc == -EEAV_IDN_ERROR, "idn-error");
 #endif
